@@ -16,7 +16,10 @@ Quick == Tier = "quick"
 RxApis == {"test", "exec", "match", "search", "replace", "replaceAll", "split"}
 RxCtors == {"literal", "RegExp_str", "new_RegExp_str", "new_RegExp_regex", "RegExp_regex", "string_pattern", "lookahead_copy"}
 RxLoops == {"rx_" \o a \o "_" \o c : a \in RxApis, c \in RxCtors}
-BaseLoops == {"while", "for", "dowhile", "labelled", "recursion", "mutual", "regex_backtrack", "regex_loop", "regex_lookahead", "nested_eval_loop"}
+\* regex_short_runs / regex_many_attempts: ONE regex call whose work is spread over very many short matcher runs
+\* (a lookbehind tried from every start position; a search whose every attempt fails after ~20 steps)
+BaseLoops == {"while", "for", "dowhile", "labelled", "recursion", "mutual", "regex_backtrack", "regex_loop", "regex_lookahead",
+              "nested_eval_loop", "regex_short_runs", "regex_many_attempts", "regex_lookbehind_in_loop"}
 \* a value created by one evaluation and used by a later one on the same context, after the first one's deadline is
 \* long past on the (virtual) clock: the later evaluation has its own budget and must finish normally
 CarryLoops == {"carry_regex_literal", "carry_regex_ctor", "carry_regex_in_closure", "carry_function", "carry_string_method_regex"}
